@@ -27,7 +27,9 @@ CLAIM = {
             "when the recomposed transaction differs from the supplied one; (R7.5) the upfront shutdown script the "
             "validator compares with is the one the node fixed: the protocol handler fills ChannelSetup."
             "holder_shutdown_script - value and presence - from the request's local_shutdown_script only (and the "
-            "counterparty's from remote_shutdown_script only). channel_closed + persist: C02 R2.2. Does "
+            "counterparty's from remote_shutdown_script only); (R7.6) the funding outpoint the closing transaction spends "
+            "is fixed once set: ChannelSetup.funding_outpoint is written, outside construction, only by "
+            "MultiSigner::additional_setup and only while the stored outpoint is still null. channel_closed + persist: C02 R2.2. Does "
             "not decide the numeric epsilon/fee arithmetic at extremes.",
     "note": "non-permissive policy; Wallet::can_spend / allowlist_contains semantics by name (C08 R8.4 checks can_spend)",
     "technique": "static analysis: must-pass-through on boolean/Result edges + guard scenarios + provenance (argument roles)",
@@ -42,6 +44,7 @@ def run(ctx):
     r73(ctx)
     r74(ctx)
     r75(ctx)
+    r76(ctx)
 
 
 def r71(ctx):
@@ -356,3 +359,27 @@ def r75(ctx):
     ctx.rule("R7.5", "the handler stores the request's own (local) upfront shutdown script as the holder's: value and "
                      "presence of ChannelSetup.holder_shutdown_script come from local_shutdown_script only")
     setup_roles(ctx, "R7.5", SCRIPT_ROLES, "a script the node fixed can be dropped, replaced or invented")
+
+
+def r76(ctx):
+    ctx.rule("R7.6", "the channel's funding outpoint is fixed once set: ChannelSetup.funding_outpoint is written only while "
+                     "it is null (MultiSigner::additional_setup), so the closing transaction always spends the outpoint "
+                     "the channel was set up with")
+    p = ctx.prog
+    ALLOWED = {"lightning_signer::signer::multi_signer::MultiSigner::additional_setup": "fills an outpoint that is still null"}
+    ws = R.who_may_write(ctx, "R7.6", "ChannelSetup", "funding_outpoint", ALLOWED, floor=1, skip=R.is_test_util)
+    for b, bi, idx, obj in ws:
+        on = R.owner_name(p, b)
+        if on not in ALLOWED or (b.mac and "derive" in b.mac):
+            continue
+        fv = fnview(ctx, b, policy=False)
+        te = set()
+        for cbi, c in b.calls():
+            if c.callee is not None and c.callee.name.endswith("OutPoint::is_null") and \
+               render(fv.expr(c.args[0])).endswith("setup.funding_outpoint"):
+                te |= fv.result_edges(cbi, c, "ok")
+        reach = bi in fv.reach(0, cut_edges=te)
+        ctx.ob("R7.6", bool(te) and not reach, f"{on}/funding-outpoint-only-while-null",
+               f"`{on}` can overwrite a funding outpoint that is already set (line {obj.line}): the channel is re-pointed and "
+               "a later mutual close is signed for a transaction spending another outpoint",
+               where=f"{b.file}:{obj.line}", sample="write dominated by funding_outpoint.is_null() == true")
